@@ -68,12 +68,19 @@ fn body(s: &Script) -> Result<(), String> {
             },
         }
         let before = interpose::poll_timeouts().len();
+        let t0 = std::time::Instant::now();
         let res: Result<Vec<u8>, TryRecvError> = match call {
             Call::Recv => rx.recv().map_err(TryRecvError::IpcError),
             Call::Try => rx.try_recv(),
             Call::Timed(us) => rx.try_recv_timeout(Duration::from_micros(*us)),
         };
         if let (Call::Timed(us), Err(TryRecvError::Empty)) = (call, &res) {
+            // the clock is virtual under the scheduler: it advances by what a timed wait asked for
+            // when that wait's timer is the alternative taken, so this holds for any way of waiting
+            let el = t0.elapsed();
+            if el < Duration::from_millis(*us / 1000) {
+                return Err(format!("step {}: try_recv_timeout({} us) reported empty after only {:?} (virtual time)", i, us, el));
+            }
             // "waits at least the requested time (to millisecond granularity) before reporting
             // 'empty'": timers are virtual here, so look at what was handed to poll(2) during the
             // call; an implementation may poll more than once.
@@ -227,6 +234,13 @@ fn race_body(r: &Race) -> Result<(), String> {
         let e = CLOCK.fetch_add(1, Ordering::SeqCst);
         (b, e, res)
     });
+    if cfg!(feature = "inproc") {
+        // no system call separates the spawn from the first receive call in this build: give the
+        // scheduler the choice of who goes first (default: the sender; one deviation: the receiver)
+        unsafe {
+            libc::sched_yield();
+        }
+    }
     let sends = matches!(act, Pre::Small | Pre::Big);
     let mut delivered = 0;
     let mut calls = vec![r.first];
@@ -237,12 +251,21 @@ fn race_body(r: &Race) -> Result<(), String> {
     let mut disconnected = false;
     for c in calls {
         let cb = CLOCK.fetch_add(1, Ordering::SeqCst);
+        let t0 = std::time::Instant::now();
         let res = match c {
             Call::Recv => rx.recv().map_err(TryRecvError::IpcError),
             Call::Try => rx.try_recv(),
             Call::Timed(us) => rx.try_recv_timeout(Duration::from_micros(us)),
         };
+        let el = t0.elapsed();
         let ce = CLOCK.fetch_add(1, Ordering::SeqCst);
+        if let (Call::Timed(us), Err(TryRecvError::Empty)) = (c, &res) {
+            // 'empty' only after the requested time; a message or the disconnection during the
+            // wait ends it early with that result, never with 'empty' (virtual clock)
+            if el < Duration::from_millis(us / 1000) {
+                return Err(format!("try_recv_timeout({} us) reported 'empty' after only {:?} (virtual time) while the sender was active", us, el));
+            }
+        }
         match res {
             Ok(v) => {
                 validate(&v)?;
@@ -315,17 +338,33 @@ pub fn scenarios(tier: Tier) -> Vec<Scenario> {
                 let r = Race { first: *f, sender: s, second };
                 let name = format!("{:?}", r);
                 let bound = 3;
-                v.push(Scenario::new(name, sched_cfg(), bound, move || race_body(&r)));
+                let mut cfg = sched_cfg();
+                // in-process channels block by spinning, yielding, then parking: let the receiver
+                // also get as far as parking before the sender moves
+                cfg.yield_alts = cfg!(feature = "inproc");
+                v.push(Scenario::new(name, cfg, bound, move || race_body(&r)));
             }
         }
     }
     v
 }
 
-pub fn run(tier: Tier, _part: bool) -> i32 {
+pub fn run(tier: Tier, part_only: bool) -> i32 {
     let mut rep = Report::new("C10", tier, "model_checking");
+    run_all(&mut rep, tier);
+    if part_only {
+        return super::emit_part(&super::Part::from_report(&rep));
+    }
+    match super::run_variant_part("inproc", "C10", tier) {
+        Ok(p) => p.merge_into(&mut rep),
+        Err(e) => rep.machinery(e),
+    }
+    rep.finish()
+}
+
+fn run_all(rep: &mut Report, tier: Tier) {
     let scs = scenarios(tier);
-    let tot = e1::run_scenarios(&mut rep, &scs, &e1::strict_judge, if tier.is_quick() { 25.0 } else { 2000.0 });
+    let tot = e1::run_scenarios(rep, &scs, &e1::strict_judge, if tier.is_quick() { 25.0 } else { 2000.0 });
     // E2 scripts
     let ss = scripts(tier);
     let cfg = Cfg { sched: true, fake_sndbuf: Some(4608), ..Default::default() };
@@ -369,11 +408,12 @@ pub fn run(tier: Tier, _part: bool) -> i32 {
     rep.set("deviation_bound", json!(tot.max_bound));
     rep.set("rule", json!("E1: one evaluation = one schedule (<= bound deviations incl. timer firings) of a receiver doing try_recv / try_recv_timeout(d) [+ a second non-blocking call] then blocking recv against a task that sends small / 3-packet or drops; E2: every call sequence of length <= 3 (4 thorough) over {recv, try_recv, try_recv_timeout(d)} x pre-action {nothing, small, 3-packet, drop} that never issues a recv the ideal channel would block on, each optionally ended by a blocking recv that MUST block; timers are virtual (the value handed to poll is checked), plus 5 real-time cases for the lower bound"));
     rep.assume("try_recv while a multi-packet message is half sent is unspecified (may wait for the sender); only complete messages are required to be returned");
-    rep.assume("long time-outs are virtual under the scheduler: the argument of poll(2) and a real-time lower bound for 5 durations are checked, not wall-clock accuracy");
-    rep.finish()
+    rep.assume("long time-outs are virtual under the scheduler: the argument of poll(2), the virtual clock (advanced by what each timed wait asked for) and a real-time lower bound for 5 durations are checked, not wall-clock accuracy");
+    rep.set("builds", json!("all of the above on the OS build and again on the in-process build (keys prefixed inproc.)"));
 }
 
 pub fn replay(tier: Tier, v: &Value) -> i32 {
+    let v = if v.get("variant").is_some() { &v["case"] } else { v };
     if v["engine"] == "E2-script" {
         let Ok(c) = serde_json::from_value::<Script>(v["case"].clone()) else { return 2 };
         let cfg = Cfg { sched: true, fake_sndbuf: Some(4608), trace: true, ..Default::default() };
